@@ -179,6 +179,49 @@ def nth_stream(rng, pid, kinds=("iter", "iterref", "vec", "slice", "array", "ran
     return cases
 
 
+def zst_stream(rng, pid):
+    """zero-sized element types: `ptr.add(i) == ptr`, slices of any length occupy no memory"""
+    cases = []
+    i = 0
+    for kind in ("vec", "array", "slice"):
+        for L in (1, 2, 3, 5, 8):
+            progs = [[["next"] * (L + 1)], [["chunk 2 all", "chunk 3 1", "next", "chunk 2 0"]], [["bufnew 2", "bufnext all", "bufnext 1", "bufnext all", "next"]],
+                     [["chunk %d all" % L, "next"]], [["chunk %d nth:1" % (L + 1)]], [["enumforeach 2"]], [["idsvalues"]],
+                     [["next", "skip", "next"]], [["chunk 2 all", "len"], ["next", "next", "hasmore"]], [["bufnew 3", "bufnext all"], ["enumforeach 1"]]]
+            for pr in progs:
+                for owner in ("drop", "intoseq all", "intoseq 1"):
+                    c = Case("%s-zst%d" % (pid, i), kind, vals=[0] * L, threads=[list(t) for t in pr], owner=owner, zst=True)
+                    if len(pr) > 1:
+                        c.sched = rand_sched(rng, len(pr), 10)
+                    cases.append(c)
+                    i += 1
+    return cases
+
+
+def liar_stream(rng, pid):
+    """wrapped iterators whose exact size hint is not their length (size_hint must not be trusted for correctness):
+    pulls whose chunks end exactly at, just before and just after the claimed length"""
+    cases = []
+    i = 0
+    for kind in ("iter", "iterref"):
+        for L in (2, 3, 5):
+            for k in sorted(set([max(0, L - 2), L - 1, L + 1])):
+                for n in sorted(set([max(1, k - 1), max(1, k), k + 1])):
+                    progs = [[["chunk %d all" % n, "next", "chunk %d all" % n]], [["bufnew %d" % n, "bufnext all", "bufnext all", "bufnext all"]],
+                             [["next", "chunk %d 1" % n, "len", "next"]], [["chunk %d all" % n], ["next", "next"]],
+                             [["foreach %d" % n], ["chunk %d all" % n]], [["chunk %d all" % n, "hasmore"]]]
+                    for pr in progs:
+                        for owner in ("intoseq all", "drop"):
+                            c = make_source(rng, "%s-liar%d" % (pid, i), kind, L, hint="fixed%d" % k)
+                            c.threads = [list(t) for t in pr]
+                            c.owner = owner
+                            if len(pr) > 1:
+                                c.sched = rand_sched(rng, len(pr), 12)
+                            cases.append(c)
+                            i += 1
+    return cases
+
+
 def droppanic_stream(rng, tier, pid):
     """a destructor panics: the k-th destruction of an element performed by the machinery of a consumed vec / array
     (unconsumed chunk rest, elements discarded by `nth`, skip_to_end, Drop, the remainder of into_seq_iter)"""
@@ -261,10 +304,10 @@ def stream_for0(pid, tier, seed):
     defects = corpus(["defects.cases", "regress.cases"])
     big = tier != "quick"
     if pid in ("C01", "C02", "C04"):
-        return defects + pulls_stream(rng, tier, pid) + half_stream(rng, pid) + nth_stream(rng, pid)
+        return defects + pulls_stream(rng, tier, pid) + half_stream(rng, pid) + nth_stream(rng, pid) + liar_stream(rng, pid) + zst_stream(rng, pid)
     if pid == "C03":
         cases = defects + pulls_stream(rng, tier, pid, prof=dict(loops=False, query=False, drain=0.2))
-        cases += half_stream(rng, pid) + nth_stream(rng, pid)
+        cases += half_stream(rng, pid) + nth_stream(rng, pid) + liar_stream(rng, pid) + zst_stream(rng, pid)
         return cases
     if pid == "C05":
         cases = defects + pulls_stream(rng, tier, pid, prof=dict(nonfused=True), exh=False, n_random=800 if not big else 30000)
@@ -358,7 +401,7 @@ def stream_for0(pid, tier, seed):
                                 c.threads = [["bufnew 2"] + ["bufnext %s" % rng.choice(["all", "1", "0"])] * k]
                             c.owner = owner
                             cases.append(c)
-        cases += droppanic_stream(rng, tier, pid)
+        cases += droppanic_stream(rng, tier, pid) + zst_stream(rng, pid)
         return cases
     if pid == "C09":
         cases = defects + pulls_stream(rng, tier, pid, n_random=1000 if not big else 40000, prof=dict(skip=True))
@@ -380,7 +423,7 @@ def stream_for0(pid, tier, seed):
             cases += exhaustive("C09-px%d" % k, bases, 2, 7 if not big else 10)
         return cases
     if pid == "C10":
-        return defects + pulls_stream(rng, tier, pid, prof=dict(skip=True, owners=["intoseq all", "intoseq 1", "intoseq 2", "intoseq 0"]), exh=False, n_random=2000 if not big else 80000)
+        return defects + pulls_stream(rng, tier, pid, prof=dict(skip=True, owners=["intoseq all", "intoseq 1", "intoseq 2", "intoseq 0"]), exh=False, n_random=2000 if not big else 80000) + liar_stream(rng, pid) + zst_stream(rng, pid)
     if pid == "C11":
         return defects + pulls_stream(rng, tier, pid, prof=dict(skip=True, query=True, drain=0.3), n_random=2000 if not big else 80000, exh=False) + \
             exhaustive("C11-x2", small_bases(rng, [[["next", "len"], ["chunk 2 all", "hasmore"]], [["hasmore", "next"], ["skip", "len"]]], ["slice", "vec", "range", "iter"]), 2, 8 if not big else 11)
